@@ -292,7 +292,9 @@ class World(object):
             thunk = lambda: c.add_namespace(Namespace(prefix, uri))
         out = self._call(thunk, lambda ns: [ns.prefix, ns.uri])
         if out.status == "ok":
-            self.nsobjs[(ch, prefix)] = out.result
+            # the first object obtained for this (container, prefix) is the one later
+            # "nsobj" specs mean (the generator's bookkeeping also keeps the first request)
+            self.nsobjs.setdefault((ch, prefix), out.result)
         return out
 
     def op_set_default(self, ch, uri):
